@@ -14,7 +14,7 @@ import itertools
 
 import numpy as np
 
-from harness import core, coords
+from harness import core, coords, qobjs
 
 SYS = (2,)
 
@@ -138,6 +138,24 @@ def replay_chain(chk, case):
             chk.violation("shape:%s:%s" % (kinds, tree_str(tr)),
                           "bracketing %s of chain %s reports outcome shape %s, time-ordered shape is %s" % (tree_str(tr), names, shape, want_shape),
                           dict(chain=chain, tree=tree_str(tr)))
+        # the POVM a (composed) measurement process induces: Tr[E_k rho] = Tr[M_k(rho)] on a spanning set of states
+        if type(res).__name__ == "MProcess":
+            try:
+                pv = res.to_povm()
+                d = res.dim
+                for nm in ("x0", "y0", "z0", "z1"):
+                    rho = qobjs.gen("state", nm, res.composite_system)
+                    for k_, hs in enumerate(res.hss):
+                        tr_out = float(np.sqrt(d) * (hs @ rho.vec)[0])
+                        if abs(float(np.dot(pv.vecs[k_], rho.vec)) - tr_out) > 1e-9:
+                            chk.violation("to_povm:%s:%s" % (kinds, tree_str(tr)),
+                                          "bracketing %s of chain %s: to_povm() of the resulting measurement process is not its induced POVM (outcome %d on %s)" % (tree_str(tr), names, k_, nm),
+                                          dict(chain=chain, tree=tree_str(tr)))
+                            raise StopIteration
+            except StopIteration:
+                pass
+            except Exception as e:
+                chk.violation("to_povm:exception:%s" % kinds, "to_povm() of the result of chain %s raised %r" % (names, e), dict(chain=chain))
         # physical operands give a physical result
         try:
             if hasattr(res, "is_physical") and kind != "D" and not (kind == "S" and ps is not None):
